@@ -51,8 +51,9 @@ def run(tier, replay_path, t0):
     # make keys specific: monitor + info (mode:op:point)
     keys2 = {}
     for k, info in keys.items():
-        k2 = k + ":" + str(info.get("info", ""))
+        k2 = k + ":" + str(info.get("info", "")).replace(" ", "_")
         keys2[k2] = info
+    truncs = [e for e in events if e.get("ev") == "trunc"]
     crashes = [e for e in events if e.get("ev") == "crash"]
     points = {}
     for e in crashes:
@@ -75,6 +76,7 @@ def run(tier, replay_path, t0):
         "mc_configs": stats, "exhaustive_model": all(s["completed"] for s in stats) if stats else False,
         "cases_available": len(all_b), "cases_run": len(cases), "crash_points_by_kind": points,
         "hooks_fired": sum(1 for e in crashes if e.get("fired")),
+        "truncated_file_probes": sum(e.get("lengths", 0) for e in truncs), "truncated_files": len(truncs),
         "layer_m_nonconformances": len(nonconfs), "layer_m_first": nonconfs[:3],
         "harness_build_s": round(build_s, 1),
     }
